@@ -6,6 +6,7 @@ CONSTANTS
   AliasInput = FALSE
   LeakyObserver = FALSE
   AliasResult = TRUE
+  AliasArg = FALSE
 INVARIANT Independent
 INVARIANT Deterministic
 INVARIANT FreshDefaults
